@@ -52,6 +52,9 @@ func (r *addrsRecord) flush(write ds.Write) (err error) {
 	key := addrBookBase.ChildString(b32.RawStdEncoding.EncodeToString(r.Id))
 
 	if len(r.Addrs) == 0 {
+		// a peer without addresses has no signed record either (the object
+		// may stay in the cache after its datastore entry is deleted)
+		r.CertifiedRecord = nil
 		if err = write.Delete(context.TODO(), key); err == nil {
 			r.dirty = false
 		}
@@ -97,6 +100,7 @@ func (r *addrsRecord) clean(now time.Time) (chgd bool) {
 	if addrsLen == 0 {
 		// this is a ghost record; let's signal it has to be written.
 		// flush() will take care of doing the deletion.
+		r.CertifiedRecord = nil
 		return true
 	}
 
@@ -107,6 +111,10 @@ func (r *addrsRecord) clean(now time.Time) (chgd bool) {
 	}
 
 	r.Addrs = removeExpired(r.Addrs, nowUnix)
+	if len(r.Addrs) == 0 {
+		// the signed record does not outlive the peer's last address
+		r.CertifiedRecord = nil
+	}
 
 	return r.dirty || len(r.Addrs) != addrsLen
 }
@@ -235,7 +243,10 @@ func (ab *dsAddrBook) loadRecord(id peer.ID, cache bool, update bool) (pr *addrs
 		pr.Lock()
 		defer pr.Unlock()
 
-		if pr.clean(ab.clock.Now()) && update {
+		// a record changed by clean is always written through (also when the
+		// caller only reads): otherwise the cached object hides the expired
+		// entries of the datastore record from the lookahead GC
+		if pr.clean(ab.clock.Now()) {
 			err = pr.flush(ab.ds)
 		}
 		return pr, err
@@ -254,7 +265,7 @@ func (ab *dsAddrBook) loadRecord(id peer.ID, cache bool, update bool) (pr *addrs
 			return nil, err
 		}
 		// this record is new and local for now (not in cache), so we don't need to lock.
-		if pr.clean(ab.clock.Now()) && update {
+		if pr.clean(ab.clock.Now()) {
 			err = pr.flush(ab.ds)
 		}
 	default:
